@@ -1,5 +1,8 @@
 From Coq Require Import List NArith Bool.
-From V.Mgr Require Import Model Caps.
+From V.gen Require CapsTables.
+From V.Mgr Require Import DialShape Model Caps CapsExt Limits LimitsProofs PeerTable PeerTableProofs.
+From V.Mgr Require Ledger LedgerInv CapsLedger.
+From V.C06 Require Tables TcpReject Compose08.
 Import ListNotations.
 Open Scope N_scope.
 From V.C06 Require Import Properties.
@@ -34,3 +37,193 @@ Check (C06_reject_preserves :
 Check (C06_dial_gate :
   forall L m p ts fl a f, limit_reached (max_out L) (outs m) = true ->
   do_dial_peer L m p ts fl = (m, [Ret RET_LIMIT]) /\ do_dial_shape L m a f = (m, [Ret RET_LIMIT])).
+Check (C06_limits_builder :
+  forall ks, cfg_build ks = (last_set true ks None, last_set false ks None)).
+Check (C06_limits_object_invariant :
+  forall c ops, guarded (lim_new c) ops = true -> LimInv (lim_run (lim_new c) ops)).
+Check (C06_limits_object_invariant_step :
+  forall ops l, LimInv l -> guarded l ops = true -> LimInv (lim_run l ops)).
+Check (C06_limits_checks_pure :
+  forall l o, match o with LDial | LIncoming | LCan _ => fst (lim_step l o) = l | _ => True end).
+Check (C06_limits_dial_capacity :
+  forall l,
+  match snd (lim_step l LDial) with
+  | LCap (Some k) => exists mx, lmax_out l = Some mx /\ 1 <= k /\ k + card (lout l) = mx
+  | LCap None => lmax_out l = None
+  | LErrOut => limit_reached (lmax_out l) (lout l) = true
+  | _ => False
+  end).
+Check (C06_limits_closed_exact :
+  forall l c d,
+  let l' := fst (lim_step l (LClosed c)) in
+  (In d (lin l') <-> In d (lin l) /\ d <> c) /\ (In d (lout l') <-> In d (lout l) /\ d <> c)).
+Check (C06_limits_unguarded_exceeds :
+  exists c ops, let l := lim_run (lim_new c) ops in lmax_in l = Some 1 /\ card (lin l) = 2).
+Check (C06_manager_uses_limits_object :
+  forall L m e, lim_run (lim_of L m) (lim_ops L m e) = lim_of L (fst (step L m e))).
+Check (C06_manager_calls_guarded :
+  forall L m e, guarded (lim_of L m) (lim_ops L m e) = true).
+Check (C06_dial_refused_iff_object_refuses :
+  forall L m p ts fl,
+  (snd (lim_step (lim_of L m) LDial) = LErrOut <-> snd (do_dial_peer L m p ts fl) = [Ret RET_LIMIT]) /\
+  (snd (lim_step (lim_of L m) LDial) = LErrOut -> fst (do_dial_peer L m p ts fl) = m)).
+Check (C06_pending_inbound_gate :
+  forall L m c t, installed L t = true ->
+  step L m (TrPendingInbound c t) =
+    (m, [if match snd (lim_step (lim_of L m) LIncoming) with LOk => true | _ => false end
+         then CallAcceptPending c t else CallRejectPending c t])).
+Check (C06_peer_table :
+  forall s o, (shape_of (fst (pstep s o)), snd (pstep s o)) = table (shape_of s) (classify s o)).
+Check (C06_peer_slots_at_most_two :
+  forall s, (length (slots s) <= 2)%nat).
+Check (C06_peer_established_slots :
+  forall s n,
+  slots (fst (r_on_established s n)) = if snd (r_on_established s n) then slots s ++ [n] else slots s).
+Check (C06_peer_closed_slots :
+  forall s c, slots (fst (r_on_closed s c)) = remove_first_rec c (slots s)).
+Check (C06_peer_other_methods_keep_slots :
+  forall s o, match o with PEstablished _ | PClosed _ => True | _ => slots (fst (pstep s o)) = slots s end).
+Check (C06_peer_refused_iff :
+  forall s n,
+  snd (r_on_established s n) = false <->
+  (length (slots s) = 2%nat \/
+   (length (slots s) = 1%nat /\ exists d, dial_of s = Some d /\ fst d <> fst n))).
+Check (C06_peer_closed_reports_iff :
+  forall s c, snd (r_on_closed s c) = true <-> exists r, slots s = [r] /\ fst r = c).
+Check (C06_peer_slot_ids_distinct :
+  forall s o, NoDup (slot_ids s) -> pop_fresh s o -> NoDup (slot_ids (fst (pstep s o)))).
+Check (C06_peer_dial_record :
+  forall s,
+  (forall n, dial_of (fst (r_on_established s n)) =
+             match dial_of s with Some d => if fst d =? fst n then None else Some d | None => None end) /\
+  (forall c, dial_of (fst (r_on_dial_failure s c)) =
+             match dial_of s with Some d => if fst d =? c then None else Some d | None => None end /\
+             snd (r_on_dial_failure s c) = dial_matches s c)).
+Check (C06_record_names_peer :
+  forall p a c, snd (snd (rec_new p a c)) = Some p /\ fst (rec_new p a c) = c).
+Check (C06_peer_erase_refines :
+  forall s,
+  r_can_dial s = can_dial (erase s) /\
+  (forall c, erase (fst (r_on_dial_failure s c)) = st_on_dial_failure (erase s) c) /\
+  (forall n, (erase (fst (r_on_established s n)), snd (r_on_established s n)) = st_on_established (erase s) (fst n)) /\
+  (forall c, (erase (fst (r_on_closed s c)), snd (r_on_closed s c)) = st_on_closed (erase s) c) /\
+  (forall r, erase (fst (r_dial_single s r)) = match can_dial (erase s) with GateOk => Dialing (fst r) | _ => erase s end) /\
+  (forall c a ts, erase (fst (r_dial_addresses s c a ts)) = match can_dial (erase s) with GateOk => Opening c ts | _ => erase s end)).
+Check (C06_peer_erase_refines_opening :
+  forall a c ts t r,
+  erase (fst (r_on_open_failure (ROpening a c ts) t)) =
+    match remove_tr t ts with [] => Disconnected None | ts' => Opening c ts' end /\
+  erase (fst (r_on_opened (ROpening a c ts) r)) = Dialing (fst r)).
+Check (C06_per_peer_rule :
+  forall s c,
+  snd (st_on_established s c) = false <->
+  (exists r d, s = Connected r (Some (SecEst d))) \/
+  (exists r d, s = Connected r (Some (SecDial d)) /\ d <> c)).
+Check (C06_established_decision :
+  forall L m p c t (lst f : bool),
+  (forall q, lookup c (pending m) = Some q -> q = p) ->
+  (forall d ts, state_of m p = Opening d ts -> forallb (installed L) ts = true) ->
+  let os := snd (do_established L m p c t lst f) in
+  let ok := snd (st_on_established (state_of m p) c) in
+  (In (CallAccept c t) os <-> dir_full L m lst = false /\ ok = true) /\
+  (In (CallReject c t) os <-> dir_full L m lst = true \/ ok = false)).
+Check (C06_reject_reserves_nothing :
+  forall L m p c t (lst f : bool),
+  (forall q, lookup c (pending m) = Some q -> q = p) ->
+  (forall d ts, state_of m p = Opening d ts -> forallb (installed L) ts = true) ->
+  In (CallReject c t) (snd (do_established L m p c t lst f)) ->
+  ins (fst (do_established L m p c t lst f)) = ins m /\ outs (fst (do_established L m p c t lst f)) = outs m).
+Check (C06_decision_reachable :
+  forall L m g p c t (lst f : bool),
+  LedgerInv.Reach L m g -> LedgerInv.feas L m g (TrEstablished p c t lst f) ->
+  let os := snd (do_established L m p c t lst f) in
+  let ok := snd (st_on_established (state_of m p) c) in
+  (In (CallAccept c t) os <-> dir_full L m lst = false /\ ok = true) /\
+  (In (CallReject c t) os <-> dir_full L m lst = true \/ ok = false) /\
+  (In (CallReject c t) os ->
+   ins (fst (do_established L m p c t lst f)) = ins m /\ outs (fst (do_established L m p c t lst f)) = outs m)).
+Check (C06_established_answered_once :
+  forall L m g p c t (lst f : bool),
+  LedgerInv.Reach L m g -> LedgerInv.feas L m g (TrEstablished p c t lst f) ->
+  let os := snd (do_established L m p c t lst f) in
+  (In (CallAccept c t) os \/ In (CallReject c t) os) /\ ~ (In (CallAccept c t) os /\ In (CallReject c t) os)).
+Check (C06_not_connected_accepted :
+  forall L m p c t (lst f : bool),
+  (forall q, lookup c (pending m) = Some q -> q = p) ->
+  (forall d ts, state_of m p = Opening d ts -> forallb (installed L) ts = true) ->
+  dir_full L m lst = false -> can_dial (state_of m p) <> GateConnected ->
+  In (CallAccept c t) (snd (do_established L m p c t lst f))).
+Check (C06_refuses_iff_full :
+  forall L m l lst, CapInv L m l ->
+  (dir_full L m lst = true <->
+   exists mx, (if lst then max_in L else max_out L) = Some mx /\ N.of_nat (length (of_dir lst l)) = mx)).
+Check (C06_closed_frees_slot :
+  forall L m l p c q lst, CapInv L m l -> lookup c l = Some (q, lst) ->
+  dir_full L (fst (do_closed m p c)) lst = false).
+Check (C06_uncounted_close_keeps :
+  forall L m l p c, CapInv L m l -> lookup c l = None ->
+  ins (fst (do_closed m p c)) = ins m /\ outs (fst (do_closed m p c)) = outs m).
+Check (C06_C08_feasible_split :
+  forall cap tr e s,
+  V.Ts.Model.feasible cap e s tr =
+  Compose08.feasible_rest e s tr && Compose08.conn_feasible cap e (filter Compose08.is_conn (map snd tr))).
+Check (C06_composed_invariant :
+  forall L xs, Compose08.xtrace L Compose08.x0 xs -> Compose08.XInv L (Compose08.xrun L Compose08.x0 xs)).
+Check (C06_protocol_holds_at_most_two :
+  forall L s p, Compose08.XInv L s ->
+  (length (V.Ts.Model.live_of p (V.Ts.Model.e_live (Compose08.x_e s))) <= 2)%nat).
+Check (C06_provides_C08_connection_part :
+  forall L xs, Compose08.xtrace L Compose08.x0 xs ->
+  Compose08.conn_feasible 2 V.Ts.Model.env0 (Compose08.xproj xs) = true).
+Check (C06_provides_C08_feasible :
+  forall L xs tr ka T0 n0,
+  Compose08.xtrace L Compose08.x0 xs ->
+  filter Compose08.is_conn (map snd tr) = Compose08.xproj xs ->
+  Compose08.feasible_rest V.Ts.Model.env0 (V.Ts.Model.init ka T0 n0) tr = true ->
+  V.Ts.Model.feasible 2 V.Ts.Model.env0 (V.Ts.Model.init ka T0 n0) tr = true).
+Check (C06_C08_alternation_composed :
+  forall L xs tr ka T0 n0 q,
+  Compose08.xtrace L Compose08.x0 xs ->
+  filter Compose08.is_conn (map snd tr) = Compose08.xproj xs ->
+  Compose08.feasible_rest V.Ts.Model.env0 (V.Ts.Model.init ka T0 n0) tr = true ->
+  V.Ts.Proofs.alternates false (V.Ts.Proofs.conn_evs q (concat (V.Ts.Model.run (V.Ts.Model.init ka T0 n0) tr)))).
+Check (C06_tcp_reject_forgets :
+  forall s c,
+  let s' := fst (V.Tcp.Model.step s (V.Tcp.Model.EReject c)) in
+  let os := snd (V.Tcp.Model.step s (V.Tcp.Model.EReject c)) in
+  os = [V.Tcp.Model.ORet (V.Tcp.Model.mem c (V.Tcp.Model.pending_open s))] /\ TcpReject.no_event os /\
+  ~ In c (V.Tcp.Model.pending_open s') /\
+  (forall d, d <> c -> (In d (V.Tcp.Model.pending_open s') <-> In d (V.Tcp.Model.pending_open s))) /\
+  V.Tcp.Model.pconn s' = V.Tcp.Model.pconn s /\ V.Tcp.Model.praw s' = V.Tcp.Model.praw s /\
+  V.Tcp.Model.opened s' = V.Tcp.Model.opened s /\
+  V.Tcp.Model.pending_inbound s' = V.Tcp.Model.pending_inbound s /\
+  V.Tcp.Model.pending_dials s' = V.Tcp.Model.pending_dials s /\ V.Tcp.Model.nfut s' = V.Tcp.Model.nfut s).
+Check (C06_tcp_reject_pending_forgets :
+  forall s c,
+  let s' := fst (V.Tcp.Model.step s (V.Tcp.Model.ERejectPending c)) in
+  let os := snd (V.Tcp.Model.step s (V.Tcp.Model.ERejectPending c)) in
+  os = [V.Tcp.Model.ORet (V.Tcp.Model.mem c (V.Tcp.Model.pending_inbound s))] /\ TcpReject.no_event os /\
+  ~ In c (V.Tcp.Model.pending_inbound s') /\
+  V.Tcp.Model.pconn s' = V.Tcp.Model.pconn s /\ V.Tcp.Model.praw s' = V.Tcp.Model.praw s /\
+  V.Tcp.Model.pending_open s' = V.Tcp.Model.pending_open s /\ V.Tcp.Model.nfut s' = V.Tcp.Model.nfut s).
+Check (C06_tcp_rejected_pending_has_no_future :
+  forall s g c, V.Tcp.Theorems.reach s g -> In c (V.Tcp.Model.pending_inbound s) ->
+  forall f k, ~ In (f, (c, k)) (V.Tcp.Model.pconn (fst (V.Tcp.Model.step s (V.Tcp.Model.ERejectPending c))))).
+Check (C06_tcp_accept_or_reject_once :
+  forall s c e,
+  e = V.Tcp.Model.EAccept c \/ e = V.Tcp.Model.EReject c ->
+  snd (V.Tcp.Model.step s e) = [V.Tcp.Model.ORet true] ->
+  snd (V.Tcp.Model.step (fst (V.Tcp.Model.step s e)) (V.Tcp.Model.EAccept c)) = [V.Tcp.Model.ORet false] /\
+  snd (V.Tcp.Model.step (fst (V.Tcp.Model.step s e)) (V.Tcp.Model.EReject c)) = [V.Tcp.Model.ORet false]).
+Check (C06_api_in_sync :
+  CapsTables.limits_api = [0; 1; 2; 3; 4] /\ CapsTables.limits_cfg_api = [0; 1] /\
+  CapsTables.peer_api = [0; 1; 2; 3; 4; 5; 6; 7] /\ CapsTables.peer_variants = [0; 1; 2; 3] /\
+  CapsTables.sec_variants = [0; 1]).
+Check (C06_limits_call_sites :
+  (forall L m e o, In o (lim_ops L m e) -> In (Tables.op_site e o) CapsTables.limits_call_sites) /\
+  (forall s, In s CapsTables.limits_call_sites -> exists L m e o, In o (lim_ops L m e) /\ Tables.op_site e o = s)).
+Check (C06_manager_source_shape :
+  CapsTables.est_order_ok = true /\ CapsTables.next_arms = [(0, 0); (1, 1); (2, 0)] /\
+  CapsTables.rollback_sites = 2 /\ CapsTables.pending_arms_ok = true).
+Check (C06_transports_reject_shape :
+  forall t k, t < 3 -> k < 4 -> In (t, k, 1) CapsTables.transport_shapes).
